@@ -12,6 +12,23 @@ def hx(s):
     return bytes.fromhex(s).decode("latin-1")
 
 
+def journal_tail(path):
+    """The last history a crashed env harness had started: {"T0","Cfg","Tags","Ops"} (replay format), or None."""
+    if not os.path.exists(path):
+        return None
+    case = None
+    for line in open(path, errors="replace"):
+        try:
+            d = json.loads(line)
+        except ValueError:
+            continue
+        if "start" in d:
+            case = {"T0": d["start"]["t0"], "Cfg": d["start"]["cfg"], "Tags": d["start"].get("tags"), "Ops": []}
+        elif "op" in d and case is not None:
+            case["Ops"].append(d["op"])
+    return case
+
+
 def run_harness(ck, sub, runs, timeout=1200):
     """runs: list of argument lists for `vrun <sub>`; returns list of cases or None."""
     binp, ok, blog = vlib.go_build("vrun")
@@ -26,7 +43,18 @@ def run_harness(ck, sub, runs, timeout=1200):
             rc, so, se, dt = vlib.run([binp, sub, "-out", outp] + extra, timeout=timeout)
             ck.oblige(rc == 0, "harness-run " + " ".join(extra), so + se)
             if rc != 0:
-                ck.violation(ck.replay_file("run", {"obligation": "harness run failed: " + " ".join(extra), "log": (so + se)[-4000:]}), False)
+                crashed = journal_tail(outp + ".journal")
+                if crashed is not None and ("panic:" in se or "fatal error:" in se or "SIGSEGV" in se):
+                    # the process died on a goroutine the harness cannot recover (e.g. a clean-up goroutine of the SDK): the journal's last
+                    # history is the input
+                    ck.violation(ck.replay_file("crash", {"what": "the process crashed while (or shortly after) running this history: " +
+                                                                   next((l for l in se.splitlines() if l.startswith(("panic:", "fatal error:"))), "Go runtime abort"),
+                                                          "trace": se[-3000:], "Case": crashed}))
+                else:
+                    ck.violation(ck.replay_file("run", {"obligation": "harness run failed: " + " ".join(extra), "log": (so + se)[-4000:]}), False)
+                for pth in (outp, outp + ".journal"):
+                    if os.path.exists(pth):
+                        os.remove(pth)
                 return None
             cases += json.load(open(outp))["cases"]
             os.remove(outp)
@@ -87,6 +115,8 @@ def finding_ik(case, ctx, i, sid, pid, pc, t, rci):
     decrypt-path load within the last interval, and no latest-key validation happened in that cache within it."""
     cache = ctx.cache_of(sid)
     td = tv = None
+    newest = None         # the newest key of this id the cache has adopted as its latest so far
+    superseded = False    # at the decrypt-path load of (pid, pc) the cache already knew a NEWER latest key of this id
     c2 = Ctx(case)
     for j in range(i):
         op, ob = case["ops"][j], case["obs"][j]
@@ -102,7 +132,12 @@ def finding_ik(case, ctx, i, sid, pid, pc, t, rci):
                 tv = ob["now"]
             if e["k"] == "MLoad" and op["k"] == "decrypt" and a[0] == pid and a[1] == pc and a[2] == "some":
                 td = ob["now"]
-    return td is not None and td >= t - rci and (tv is None or tv < t - rci)
+                superseded = newest is not None and newest > pc
+        if op["k"] == "encrypt" and ob["r"] == "enc" and ob.get("pid") == pid:
+            newest = ob["pc"] if newest is None else max(newest, ob["pc"])
+    # the finding is about a key the cache had no newer replacement for when the decrypt path (re)loaded it: the unchanged code
+    # never lets a load of an OLDER key take the place of the latest one
+    return td is not None and td >= t - rci and (tv is None or tv < t - rci) and not superseded
 
 
 def finding_dup(ob, pid):
@@ -271,6 +306,8 @@ def mon_c07(cases):
         for i, (op, ob) in enumerate(zip(c["ops"], c["obs"])):
             if ob["r"] == "panic":
                 yield dict(what="operation %s panicked: %s" % (op["k"], ob.get("panicmsg")), case=ci, op=i, finding=None)
+            if ob["r"] == "stuck":
+                yield dict(what="operation %s never returned (20 s watchdog): the process is wedged" % op["k"], case=ci, op=i, finding=None)
             if op["k"] == "decrypt" and ob["r"] == "dec":
                 src = op.get("rec", 0)
                 for m in op.get("muts") or []:
@@ -363,6 +400,22 @@ def mon_c20(cases):
             if op["k"] == "encrypt" and ob["r"] == "enc":
                 parents.append((ob["pid"], ob["pc"]))
             if op["k"] in ("encrypt", "decrypt") and op.get("faults"):
+                # a use after the interval whose re-read FAILED must fail: using the stale key anyway is the third clause broken
+                pf = ctx.pol(op.get("s", 0))
+                simple_f = pf["CacheSK"] and pf["CacheIK"] and pf["SKPol"] in ("", "simple") and pf["IKPol"] in ("", "simple")
+                usedf = None
+                if op["k"] == "encrypt" and ob["r"] == "enc":
+                    usedf = (ob["pid"], ob["pc"])
+                elif op["k"] == "decrypt" and ob["r"] == "dec" and not op.get("muts") and op.get("rec", 0) < len(parents):
+                    usedf = parents[op.get("rec", 0)]
+                if usedf is not None and simple_f and not revoked_any:
+                    t0 = known.get((ctx.cache_of(op.get("s", 0)), usedf[0], usedf[1]))
+                    reread_ok = any((e["k"] == "MLoad" and (e.get("a") or [None, None, None])[0] == usedf[0] and (e.get("a") or [None, None, None])[2] == "some") or
+                                    (e["k"] == "MLoadLatest" and (e.get("a") or [None, None])[0] == usedf[0] and (e.get("a") or [None, None])[1] == "some")
+                                    for e in ev_list(ob))
+                    if t0 is not None and ob["now"] > t0 + pf["RCI"] and not reread_ok:
+                        yield dict(what="intermediate key used %d ns after its last load (revoke-check interval %d ns) although its record could not be re-read (the failed re-read was swallowed)" % (
+                            ob["now"] - t0, pf["RCI"]), case=ci, op=i, finding=None)
                 known.clear()
             if op["k"] not in ("encrypt", "decrypt") or op.get("faults"):
                 continue
@@ -528,6 +581,6 @@ def finish_env(ck, prop, cases, rule, extra_tb=(), corr=True, mask=None):
         ck.violation(ck.replay_file("corr", {"obligation": "%s correspondence (Cases/EnvRun.case_diff)" % prop, "first_diff_op": d[0],
                                              "differs_in": [v for k, v in envterms.MASKS.items() if k & d[1]],
                                              "Case": shrink_ops(cases[i], d[0]), "observed": cases[i]["obs"][d[0]]}), False)
-    elif ck.discharged != ck.obligations:
+    elif ck.discharged != ck.obligations and not ck.violations:
         ck.violation(ck.replay_file("oblig", {"obligation": ck.cov.get("failed_obligations")}), False)
     return ck.finish()
